@@ -118,8 +118,14 @@ def _cond_cycle_nonneg(repo: Repo) -> str | None:
         tgt, val = (n.targets[0], n.value) if isinstance(n, ast.Assign) and len(n.targets) == 1 else (n.target, n.value) if isinstance(n, ast.AnnAssign) else (None, None)
         if isinstance(tgt, ast.Name) and val is not None and text(val) == "self.tag_namespace['cycles']":
             ns = tgt.id
-    if ns is None:
-        return "RenderContext.cycle no longer reads self.tag_namespace['cycles'] into a local"
+    NS = "self.tag_namespace['cycles']"
+
+    def is_ns(e) -> bool:
+        """the cycles table, read in place or through the local it was bound to"""
+        return (ns is not None and is_name(e, ns)) or text(e) == NS
+
+    if ns is None and NS not in text(cy.node):
+        return "RenderContext.cycle no longer reads self.tag_namespace['cycles']"
     rets = [n.value for n in walk_no_nested(cy.node) if isinstance(n, ast.Return)]
     sa_ = {}
     for n in walk_no_nested(cy.node):
@@ -130,14 +136,14 @@ def _cond_cycle_nonneg(repo: Repo) -> str | None:
         if not vals:
             return f"cycle returns `{text(r)}` which is not a local bound in the function"
         for v in vals:
-            ok = isinstance(v, ast.Call) and callee_name(v) == "setdefault" and isinstance(v.func, ast.Attribute) and is_name(call_recv(v), ns) and len(v.args) == 2 and isinstance(v.args[1], ast.Constant) and isinstance(v.args[1].value, int) and v.args[1].value >= 0
+            ok = isinstance(v, ast.Call) and callee_name(v) == "setdefault" and isinstance(v.func, ast.Attribute) and is_ns(call_recv(v)) and len(v.args) == 2 and isinstance(v.args[1], ast.Constant) and isinstance(v.args[1].value, int) and v.args[1].value >= 0
             if not ok:
-                return f"cycle returns `{text(v)[:60]}`, not `{ns}.setdefault(key, <const >= 0>)`"
+                return f"cycle returns `{text(v)[:60]}`, not `<cycles table>.setdefault(key, <const >= 0>)`"
     for n in walk_no_nested(cy.node):
         if isinstance(n, (ast.Assign, ast.AugAssign)):
             tg = n.targets if isinstance(n, ast.Assign) else [n.target]
             for t in tg:
-                if isinstance(t, ast.Subscript) and is_name(t.value, ns):
+                if isinstance(t, ast.Subscript) and is_ns(t.value):
                     v = n.value
                     ok = (
                         isinstance(n, ast.Assign)
